@@ -2,6 +2,7 @@
 from lib import *
 from mutate import *
 
+KERNEL_XCHECK = True
 RULE = ("documents = spelled random forests (well-formed) + the malformed stream of C12 (mutations, raw bytes, long lines); "
         "options in {text default, custom branch strings, JSON, dry-run + extensions}; one driver source compiled twice "
         "(with and without -tags tinywasm) from /repo; non-trivial = accepted with >= 2 lines, or rejected")
@@ -29,6 +30,7 @@ def run(ck, rng):
     impl_w, _ = run_impl(exe_w, wcases)
     model_w = run_model(wcases)
     model_d = run_model(dcases)
+    ck.xcheck_cases = (dcases, model_d)
     broken = None
     for i, doc in enumerate(docs):
         rd, rw = impl_d[i].split(" ")[0], impl_w[i].split(" ")[0]
